@@ -30,7 +30,7 @@ RULE = (
 ASSUMPTIONS = [
     "surface distances within 1e-9 of d_min (or of 0 for overlaps) are knife-edges: cases regenerated / clause skipped",
     "no tie-breaking rule is assumed: a removed droplet only needs a droplet at least as large within d_min",
-    "nearest-neighbour surface distances are demanded only for pairwise distinct positions",
+    "nearest-neighbour surface distances are not demanded when three or more droplets share one position exactly",
 ]
 REQUIRED_MONITORS = {"contract:remove_overlapping": 500, "post:separated": 500, "post:pairwise-matrix": 500,
                      "post:neighbors": 200, "post:from-random-inside": 50}
@@ -226,10 +226,15 @@ def judge_queries(em, grid, rec, label):
                     rec.check(res.shape == (n,) and bool(np.allclose(res, exp, rtol=0, atol=1e-11 * scale)), "neighbors",
                               f"neighbor distances {res.tolist()} != row minima {exp.tolist()}; {label}")
                 else:
-                    distinct = all(np.linalg.norm(info[i][0] - info[j][0]) > 1e-9 for i, j in itertools.combinations(range(n), 2))
-                    if not distinct:
-                        rec.count("neighbors_surface_skipped_coincident_positions")
+                    # k-d tree hits are unordered among exactly coincident centres: with two droplets on one
+                    # spot the two nearest hits are that pair whatever their order, with three or more the
+                    # outcome is not determined - those emulsions are skipped
+                    coincide = [sum(1 for j in range(n) if np.linalg.norm(info[i][0] - info[j][0]) <= 1e-9) for i in range(n)]
+                    if max(coincide) >= 3:
+                        rec.count("neighbors_surface_skipped_three_coincident_positions")
                         continue
+                    if max(coincide) == 2:
+                        rec.count("neighbors_surface_with_concentric_pair")
                     okall = res.shape == (n,)
                     if okall:
                         for i in range(n):
@@ -315,7 +320,8 @@ def gen(rng, kind, tier):
         dim = int(rng.choice([1, 2, 2, 3]))
         n = int(rng.integers(0, 9))
         L = float(rng.uniform(3, 12))
-        mode = int(rng.integers(0, 5))
+        mode = int(rng.integers(0, 6))
+        lo = float(rng.choice([0.0, 0.0, -L / 2, 10.0, float(np.round(rng.uniform(-5, 5), 2))]))  # box origin
         drops = []
         for i in range(n):
             if mode == 0 and drops:  # chain of overlaps
@@ -323,8 +329,11 @@ def gen(rng, kind, tier):
             elif mode == 1 and drops and rng.random() < 0.4:  # identical droplet
                 drops.append(list(drops[-1]))
                 continue
+            elif mode == 5 and drops and i % 2 == 1 and rng.random() < 0.6:  # concentric pair, different radii
+                drops.append(list(drops[-1][:-1]) + [float(rng.uniform(0.1, 1.5))])
+                continue
             else:
-                p = rng.uniform(0, L, dim)
+                p = lo + rng.uniform(0, L, dim)
             if mode == 2:  # large droplets with tiny satellites
                 R = float(rng.choice([0.05, 0.08, 1.5, 2.0])) * float(rng.uniform(0.9, 1.1))
             else:
@@ -337,7 +346,7 @@ def gen(rng, kind, tier):
             per = [bool(rng.integers(0, 2)) for _ in range(dim)]
             h = rng.uniform(0.3, 2.0, dim)
             shape = [max(2, int(L / h[a])) for a in range(dim)]
-            g = {"family": "cart", "bounds": [[0.0, float(np.round(L / shape[a], 4) * shape[a])] for a in range(dim)],
+            g = {"family": "cart", "bounds": [[lo, lo + float(np.round(L / shape[a], 4) * shape[a])] for a in range(dim)],
                  "shape": shape, "periodic": per}
         d_min = float(rng.choice([0.0, 0.0, -0.4, 0.3, 1.0, float(rng.uniform(-1, 2))]))
         case = {"droplets": drops, "d_min": d_min, "grid": g,
